@@ -35,7 +35,9 @@ const (
 // TemporaryError is the transient device error.
 type TemporaryError struct{}
 
-func (TemporaryError) Error() string   { return "simulated entropy device: resource temporarily unavailable" }
+func (TemporaryError) Error() string {
+	return "simulated entropy device: resource temporarily unavailable"
+}
 func (TemporaryError) Temporary() bool { return true }
 func (TemporaryError) Timeout() bool   { return false }
 
